@@ -210,7 +210,7 @@ def build_cpp(names, log, extra_flags=None):
             # keep only the 2 most recent binaries per driver
             d = os.path.dirname(exe)
             olds = sorted([os.path.join(d, f) for f in os.listdir(d) if not f.endswith(".tmp")], key=os.path.getmtime)
-            for o in olds[:-2]:
+            for o in olds[:-8]:
                 try: os.remove(o)
                 except OSError: pass
         log.append(("g++ " + n, p.returncode))
